@@ -35,6 +35,10 @@ structure Scoped (w : World) : Prop where
   lst_lt : ∀ k u s, s ∈ (w.side k).lst u → s < w.nS
   loc_none : ∀ k s, w.nS ≤ s → (w.side k).loc s = none
   not_real : ∀ s, w.nS ≤ s → w.real s = false
+  /-- units that do not exist yet have empty, variable-size port lists and nothing is docked at them -/
+  lst_nil : ∀ k u, w.nU ≤ u → (w.side k).lst u = []
+  fixed_false : ∀ k u, w.nU ≤ u → (w.side k).fixed u = false
+  loc_lt : ∀ k s u, (w.side k).loc s = some u → u < w.nU
 
 /-- What is maintained along a history: as long as every operation so far was
 used within its preconditions, the invariant holds. -/
